@@ -4,7 +4,6 @@ import (
 	"bytes"
 	"errors"
 	"fmt"
-	"os"
 	"sort"
 	"sync"
 	"testing"
@@ -255,9 +254,8 @@ func newC06Wallet(name string, store c06Store, key types.PrivateKey, cm *chain.M
 	return cw, nil
 }
 
-// syncCall performs one UpdatesSince + UpdateChainState round. noRevertEnd asks
-// for a larger chunk when the returned one would end on a revert.
-func (cw *c06Wallet) syncCall(cm *chain.Manager, maxN int, noRevertEnd bool, cs *kit.CaseStats) (progressed bool, err error) {
+// syncCall performs one UpdatesSince + UpdateChainState round.
+func (cw *c06Wallet) syncCall(cm *chain.Manager, maxN int, cs *kit.CaseStats) (progressed bool, err error) {
 	tip, err := cw.store.Tip()
 	if err != nil {
 		return false, err
@@ -266,11 +264,6 @@ func (cw *c06Wallet) syncCall(cm *chain.Manager, maxN int, noRevertEnd bool, cs 
 		return false, nil
 	}
 	rus, aus, err := cm.UpdatesSince(tip, maxN)
-	for noRevertEnd && err == nil && len(rus) > 0 && len(aus) == 0 && maxN < 1<<20 {
-		maxN *= 2
-		cs.Class("reference-store: chunk enlarged so that it does not end on a revert")
-		rus, aus, err = cm.UpdatesSince(tip, maxN)
-	}
 	if err != nil {
 		return false, fmt.Errorf("%s: UpdatesSince(%v, %d) failed for an index the store was left at: %w", cw.name, tip, maxN, err)
 	}
@@ -296,7 +289,7 @@ func (cw *c06Wallet) syncCall(cm *chain.Manager, maxN int, noRevertEnd bool, cs 
 		want = rus[len(rus)-1].State.Index
 	}
 	got, _ := cw.store.Tip()
-	if cw.rec != nil && got != want {
+	if got != want {
 		return false, fmt.Errorf("%s: after %d reverts and %d applies the stream is at %v, the store says %v", cw.name, len(rus), len(aus), want, got)
 	}
 	if cw.rec != nil {
@@ -315,38 +308,6 @@ func (cw *c06Wallet) syncCall(cm *chain.Manager, maxN int, noRevertEnd bool, cs 
 		}
 	}
 	return true, nil
-}
-
-// ---------------------------------------------------------------- reference-store tip defect (known-finding probe)
-
-var (
-	refStoreDefectOnce sync.Once
-	refStoreDefect     bool
-)
-
-// refStoreRevertTipDefect reports whether testutil.EphemeralWalletStore records
-// the index of the *reverted* block as its tip (outside the property's
-// precondition "the store records as its tip the index the stream left it
-// at"). While it does, the reference store is only driven with chunk plans
-// that never end on a revert.
-func refStoreRevertTipDefect() bool {
-	refStoreDefectOnce.Do(func() {
-		s := testutil.NewEphemeralWalletStore()
-		a := types.ChainIndex{Height: 1, ID: types.BlockID{1}}
-		b := types.ChainIndex{Height: 2, ID: types.BlockID{2}}
-		_ = s.UpdateChainState(func(tx wallet.UpdateTx) error {
-			if err := tx.WalletApplyIndex(a, nil, nil, nil, time.Time{}); err != nil {
-				return err
-			}
-			if err := tx.WalletApplyIndex(b, nil, nil, nil, time.Time{}); err != nil {
-				return err
-			}
-			return tx.WalletRevertIndex(b, nil, nil, time.Time{})
-		})
-		tip, _ := s.Tip()
-		refStoreDefect = tip != a
-	})
-	return refStoreDefect
 }
 
 // ---------------------------------------------------------------- oracle
@@ -407,7 +368,7 @@ func linearEvents(tr *kit.Tree, tn *kit.TNode, key types.PrivateKey) ([]wallet.E
 	}
 	defer lw.w.Close()
 	for i := 0; ; i++ {
-		progressed, err := lw.syncCall(twin.CM, 1, false, nil)
+		progressed, err := lw.syncCall(twin.CM, 1, nil)
 		if err != nil {
 			return nil, err
 		}
@@ -422,6 +383,166 @@ func linearEvents(tr *kit.Tree, tn *kit.TNode, key types.PrivateKey) ([]wallet.E
 		return nil, errors.New("INFRA: linear twin wallet saw a revert")
 	}
 	return allEvents(lw.store)
+}
+
+// wantEvent is what the chain itself says about one wallet-relevant event,
+// derived from the blocks and the reference ledgers of the best chain only (no
+// code of the wallet is involved).
+type wantEvent struct {
+	typ      string
+	index    types.ChainIndex
+	inflow   types.Currency
+	outflow  types.Currency
+	maturity uint64 // payouts only
+	payout   bool
+}
+
+// expectedEvents walks the best chain: every siacoin element a block creates
+// for the address that is not a transaction output is a payout (miner,
+// foundation, siafund claim, contract resolution) and must have its own event;
+// every transaction whose siacoin inputs owned by the address and outputs paying
+// the address differ in sum must have a transaction event.
+func expectedEvents(tn *kit.TNode, addr types.Address) map[types.Hash256]wantEvent {
+	out := map[types.Hash256]wantEvent{}
+	path := append([]*kit.TNode{}, tn.PathFromGenesis()...)
+	// genesis first
+	root := tn
+	for root.Parent != nil {
+		root = root.Parent
+	}
+	path = append([]*kit.TNode{root}, path...)
+	for _, p := range path {
+		idx := p.Index()
+		var before map[types.SiacoinOutputID]types.SiacoinElement
+		if p.Parent != nil {
+			before = p.Parent.Ledger.SCE
+		}
+		txOutputs := map[types.SiacoinOutputID]types.SiacoinOutput{}
+		claims := map[types.SiacoinOutputID]bool{}
+		for _, txn := range p.Block.Transactions {
+			for i, o := range txn.SiacoinOutputs {
+				txOutputs[txn.SiacoinOutputID(i)] = o
+			}
+			for _, si := range txn.SiafundInputs {
+				claims[si.ParentID.ClaimOutputID()] = true
+			}
+		}
+		for _, txn := range p.Block.V2Transactions() {
+			txid := txn.ID()
+			for i, o := range txn.SiacoinOutputs {
+				txOutputs[txn.SiacoinOutputID(txid, i)] = o
+			}
+			for _, si := range txn.SiafundInputs {
+				claims[types.SiafundOutputID(si.Parent.ID).V2ClaimOutputID()] = true
+			}
+		}
+		// transaction events
+		for _, txn := range p.Block.Transactions {
+			var in, outv types.Currency
+			for _, o := range txn.SiacoinOutputs {
+				if o.Address == addr {
+					in = in.Add(o.Value)
+				}
+			}
+			for _, si := range txn.SiacoinInputs {
+				if si.UnlockConditions.UnlockHash() != addr {
+					continue
+				}
+				if e, ok := before[si.ParentID]; ok {
+					outv = outv.Add(e.SiacoinOutput.Value)
+				} else if o, ok := txOutputs[si.ParentID]; ok {
+					outv = outv.Add(o.Value)
+				}
+			}
+			if !in.Equals(outv) {
+				out[types.Hash256(txn.ID())] = wantEvent{typ: wallet.EventTypeV1Transaction, index: idx, inflow: in, outflow: outv}
+			}
+		}
+		for _, txn := range p.Block.V2Transactions() {
+			var in, outv types.Currency
+			for _, o := range txn.SiacoinOutputs {
+				if o.Address == addr {
+					in = in.Add(o.Value)
+				}
+			}
+			for _, si := range txn.SiacoinInputs {
+				if si.Parent.SiacoinOutput.Address == addr {
+					outv = outv.Add(si.Parent.SiacoinOutput.Value)
+				}
+			}
+			if !in.Equals(outv) {
+				out[types.Hash256(txn.ID())] = wantEvent{typ: wallet.EventTypeV2Transaction, index: idx, inflow: in, outflow: outv}
+			}
+		}
+		// payouts: created elements that are not transaction outputs (they have a
+		// maturity delay, so they cannot be spent inside the creating block)
+		bid := p.Block.ID()
+		for id, e := range p.Ledger.SCE {
+			if _, old := before[id]; old || e.SiacoinOutput.Address != addr || e.SiacoinOutput.Value.IsZero() {
+				continue
+			}
+			if _, isTxOut := txOutputs[id]; isTxOut {
+				continue
+			}
+			we := wantEvent{index: idx, inflow: e.SiacoinOutput.Value, maturity: e.MaturityHeight, payout: true}
+			switch {
+			case claims[id]:
+				we.typ = wallet.EventTypeSiafundClaim
+			case id == bid.FoundationOutputID():
+				we.typ = wallet.EventTypeFoundationSubsidy
+			default:
+				we.typ = "contract"
+				for i := range p.Block.MinerPayouts {
+					if id == bid.MinerOutputID(i) {
+						we.typ = wallet.EventTypeMinerPayout
+					}
+				}
+			}
+			out[types.Hash256(id)] = we
+		}
+	}
+	return out
+}
+
+// checkEventsAgainstChain is the independent event oracle.
+func checkEventsAgainstChain(where string, evs []wallet.Event, tn *kit.TNode, addr types.Address) error {
+	want := expectedEvents(tn, addr)
+	seen := map[types.Hash256]bool{}
+	for _, ev := range evs {
+		if seen[ev.ID] {
+			return fmt.Errorf("%s: two events with id %v", where, ev.ID)
+		}
+		seen[ev.ID] = true
+		w, ok := want[ev.ID]
+		if !ok {
+			return fmt.Errorf("%s: event %s does not correspond to a payout to, or a net siacoin movement of, the wallet address on the best chain", where, describeEvent(ev))
+		}
+		typ := ev.Type
+		if typ == wallet.EventTypeV1ContractResolution || typ == wallet.EventTypeV2ContractResolution {
+			typ = "contract"
+		}
+		if typ != w.typ || ev.Index != w.index {
+			return fmt.Errorf("%s: event %s should be a %s event of block %v", where, describeEvent(ev), w.typ, w.index)
+		}
+		if !ev.SiacoinInflow().Equals(w.inflow) || !ev.SiacoinOutflow().Equals(w.outflow) {
+			return fmt.Errorf("%s: event %s: the chain says inflow %v, outflow %v for the wallet address", where, describeEvent(ev), w.inflow, w.outflow)
+		}
+		if w.payout && ev.MaturityHeight != w.maturity {
+			return fmt.Errorf("%s: event %s: the paid output matures at %d", where, describeEvent(ev), w.maturity)
+		}
+		if !w.payout && ev.MaturityHeight != w.index.Height {
+			return fmt.Errorf("%s: transaction event %s: maturity height %d is not the block height", where, describeEvent(ev), ev.MaturityHeight)
+		}
+		if len(ev.Relevant) != 1 || ev.Relevant[0] != addr {
+			return fmt.Errorf("%s: event %s lists relevant addresses %v", where, describeEvent(ev), ev.Relevant)
+		}
+	}
+	for id, w := range want {
+		if !seen[id] {
+			return fmt.Errorf("%s: no event for %s %v of block %v (inflow %v, outflow %v for the wallet address)", where, w.typ, id, w.index, w.inflow, w.outflow)
+		}
+	}
+	return nil
 }
 
 // checkWallet is the C06 oracle for one wallet that has reached the tip.
@@ -513,6 +634,10 @@ func checkWallet(cw *c06Wallet, node *kit.Node, tn *kit.TNode, addr types.Addres
 		sort.Strings(missing)
 		return fmt.Errorf("%s: the event list (%d) differs from the one of a wallet synced linearly over the same best chain (%d): only here %v; only in the linear wallet %v (or a different multiplicity)", where, len(got), len(lin), extra, missing)
 	}
+	// (2b) events against the chain itself
+	if err := checkEventsAgainstChain(where, evs, tn, addr); err != nil {
+		return err
+	}
 	// (3) every event is of a best-chain block, (4) conservation
 	var inflow, outflow types.Currency
 	for _, ev := range evs {
@@ -596,10 +721,6 @@ func runC06(c C06Case, cs *kit.CaseStats) error {
 	if hw.w.Address() != addr {
 		return fmt.Errorf("INFRA: wallet address mismatch")
 	}
-	restrictRef := refStoreRevertTipDefect() && os.Getenv("VERIF_C06_REFSTORE_ANY_PLAN") == ""
-	if restrictRef {
-		cs.Excluded("reference store driven only with chunk plans that do not end on a revert (it records the reverted index as its tip)")
-	}
 	known := func(id types.BlockID) bool { _, ok := node.CM.State(id); return ok }
 	linearCache := map[types.BlockID][]wallet.Event{}
 	checks := 0
@@ -645,7 +766,7 @@ func runC06(c C06Case, cs *kit.CaseStats) error {
 		for _, cw := range []*c06Wallet{hw, rw} {
 			calls := clampInt(st.Calls, 1, 50)
 			for i := 0; i < calls; i++ {
-				progressed, err := cw.syncCall(node.CM, max(1, st.Max), cw.rec == nil && restrictRef, cs)
+				progressed, err := cw.syncCall(node.CM, max(1, st.Max), cs)
 				if err != nil {
 					return fmt.Errorf("step %d: %w", si, err)
 				}
@@ -704,7 +825,7 @@ func runC06(c C06Case, cs *kit.CaseStats) error {
 			if n > 2000 {
 				return fmt.Errorf("%s does not reach the tip %v in chunks of %d (at %v)", cw.name, node.CM.Tip(), c.FinalChunk, tip)
 			}
-			if _, err := cw.syncCall(node.CM, max(1, c.FinalChunk), cw.rec == nil && restrictRef, cs); err != nil {
+			if _, err := cw.syncCall(node.CM, max(1, c.FinalChunk), cs); err != nil {
 				return fmt.Errorf("final: %w", err)
 			}
 		}
@@ -721,7 +842,7 @@ var c06Prop = kit.Prop[C06Case]{
 	Rule: "histories as in C02 (fork trees over all hardfork regimes, generic intents that make every actor miner, payee, spender, v1/v2 contract party with valid/missed/renewed/expired payouts, siafund owner and claim address, actor 0 = foundation address; unique v1 windows) with one drawn actor as the wallet address; submission schedule interleaved with sync steps (UpdatesSince chunk sizes 1,2,3,7,1000, 1..50 calls, so the wallet is left behind, on stale branches and in the middle of reorg paths, chunks ending on reverts). Two wallets.SingleAddressWallet consume the stream: one on a strict harness store that records the index the stream left it at, one on testutil.EphemeralWalletStore. Whenever a wallet has reached the manager's tip: stored outputs = reference-ledger outputs paying the address (id, value, maturity, leaf index and proof bytes; proofs verified through core), event multiset = that of a wallet synced linearly (chunk 1, applies only) over a fresh node fed exactly the best chain, every event index on the best chain, Σ inflow − Σ outflow = Σ unspent outputs, Balance().Confirmed/Immature = the chain's sums. Non-trivial = the wallet went through a reorg of depth >= 2 that reverted a contract-resolution event or a maturing payout (miner, foundation, siafund claim, contract) of the wallet; distinct by hash of the case.",
 	Assumptions: []string{
 		"go.sia.tech/core decides validity and defines the element diffs; the reference ledger (refl) is built on core only",
-		"the store records as its tip the index the update stream left it at (the property's stated precondition); the harness store does, the reference store is probed at start-up and, while it records the reverted index instead, only driven with chunk plans that do not end on a revert (counted as excluded)",
+		"the store records as its tip the index the update stream left it at (the property's stated precondition); asserted after every UpdateChainState call for both stores",
 		"v1 contracts use unique proof windows (the history dependence of shared windows is C02's known finding)",
 		"wallets start from the zero index and are only fed what UpdatesSince returns for their own tip",
 	},
@@ -730,13 +851,3 @@ var c06Prop = kit.Prop[C06Case]{
 }
 
 func TestC06(t *testing.T) { c06Prop.Main(t) }
-
-// TestC06KnownRefStoreTip is the demonstrator for the reference store's tip
-// handling on reverts (prints KNOWN-REPRODUCED / KNOWN-GONE for the driver).
-func TestC06KnownRefStoreTip(t *testing.T) {
-	if refStoreRevertTipDefect() {
-		fmt.Println("KNOWN-REPRODUCED testutil.EphemeralWalletStore.WalletRevertIndex records the reverted index as the tip")
-	} else {
-		fmt.Println("KNOWN-GONE")
-	}
-}
